@@ -559,5 +559,5 @@ MANIFEST = {
              "serialisation site, agreement of the size/hash/encoding tables, disjoint raw-length windows, complete parameter forwarding in the providers; plus an exact derivation of the "
              "signature lengths at which length-based raw/DER detection misclassifies (recorded as known findings). Value-level round trips and unforgeability are not executed.",
     "note": "Trusted: `cryptography` primitives. DER length model: INTEGER content 1..coordinate size (+1 pad byte when the curve size is a multiple of 8).",
-    "technique": "static analysis: AST expression twins with helper substitution, call-site rules over all ECC to_bytes sites, constant folding of tables, abstract evaluation of the length tests over 0..700, symbolic-path decision tables (loader selection, ECDSA algorithm objects), byte-layout normal forms, whole-function model of raw key recreation over all lengths",
+    "technique": "static analysis: AST expression twins with helper substitution, call-site rules over all ECC to_bytes sites, constant folding of tables, abstract evaluation of the length tests over 0..700, symbolic-path decision tables (loader selection, ECDSA algorithm objects), byte-layout normal forms, whole-function model of raw key recreation over all lengths, package-wide width clause for ECC numbers serialised outside crypto/keys.py",
 }
